@@ -120,17 +120,27 @@ def r1_longest_match(ctx: Ctx) -> None:
 
 
 def r2_scoping(ctx: Ctx) -> None:
+    from ..facts import outcome_under
+    from ..match import canon
+
     tn = ctx.repo.func(NODES, "TableNode.__init__")
-    ok = any(unparse(s) == f"{tn.params()[2]}.current_scope.table = Table(self.table_path)" for s in tn.node.body) and \
-        any(unparse(s) == f"self.table_path = {tn.params()[1]}" for s in tn.node.body)
+    stores = [s for s in walk_no_nested(tn.node) if isinstance(s, ast.Assign) and unparse(s.targets[0]).endswith("current_scope.table")]
+    ok = len(stores) == 1 and unparse(stores[0].targets[0]) in (f"{tn.params()[2]}.current_scope.table", "self.resolver.current_scope.table") \
+        and canon(tn.node, stores[0].value) in (f"Table({tn.params()[1]})", "Table(self.table_path)") \
+        and any(isinstance(s, ast.Assign) and unparse(s.targets[0]) == "self.table_path" and canon(tn.node, s.value) == tn.params()[1] for s in walk_no_nested(tn.node))
     ctx.check(ok, "TableNode.__init__", ".table loads the file into the current scope's table")
     tx = ctx.repo.func(NODES, "TextNode.__init__")
-    ctx.check(any(unparse(s) == "self.table = self.resolver.current_scope.get_table()" for s in tx.node.body), "TextNode.__init__", ".text captures the table in effect where it is written (own scope, else enclosing)")
+    caps = [s for s in walk_no_nested(tx.node) if isinstance(s, ast.Assign) and unparse(s.targets[0]) == "self.table"]
+    ctx.check(len(caps) == 1 and canon(tx.node, caps[0].value) in ("self.resolver.current_scope.get_table()", f"{tx.params()[2]}.current_scope.get_table()"),
+              "TextNode.__init__", ".text captures the table in effect where it is written (own scope, else enclosing)")
     bt = ctx.repo.func(NODES, "TextNode.binary_text")
-    r = returns_of(bt.node)
-    ctx.check(len(r) == 1 and unparse(r[0].value) == "self.table.to_bytes(self.text)", "TextNode.binary_text", "the text encoded with the captured table")
-    guard = [s for s in bt.node.body if isinstance(s, ast.If) and unparse(s.test) == "self.table is None" and isinstance(s.body[-1], ast.Raise)]
-    ctx.check(len(guard) == 1, "TextNode.binary_text:no-table", ".text without a table is an error")
+    r = [x for x in returns_of(bt.node) if x.value is not None]
+    ctx.check(len(r) == 1 and canon(bt.node, r[0].value) == "self.table.to_bytes(self.text)", "TextNode.binary_text", "the text encoded with the captured table")
+    try:
+        guarded = outcome_under(bt.node, {"self.table is None": True}) == "raise"
+    except AnalysisError:
+        guarded = any(isinstance(s, ast.If) and unparse(s.test) == "self.table is None" and isinstance(s.body[-1], ast.Raise) for s in bt.node.body)
+    ctx.check(guarded, "TextNode.binary_text:no-table", ".text without a table is an error")
     at = ctx.repo.func(NODES, "AbstractTextNode.__init__")
     ctx.check(any(unparse(s) == f"self.text = {at.params()[1]}" for s in at.node.body), "AbstractTextNode.__init__", "keeps the text as written")
     gt = ctx.repo.func("a816.symbols", "Scope.get_table")
